@@ -694,14 +694,16 @@ def check_tab(run: Run, prog: Program) -> None:
     for cname, exc in (("HigherOrderFormulaBuilder", set()), ("HigherOrderFormulaBuilder3Phase", {"CONSTANT"})):
         b = prog.func(f"{ENGINE}:{cname}.build")
         run.analysed(b.qual)
-        handled = {n.attr for n in ast.walk(b.node) if isinstance(n, ast.Attribute) and u(n.value) == "TokenType"}
+        # build() and the private helpers it does the replay through
+        units = [b] + transitive_helpers(Flow(prog, b))
+        handled = {n.attr for f_ in units for n in ast.walk(f_.node) if isinstance(n, ast.Attribute) and u(n.value) == "TokenType"}
         run.check(emitted - exc <= handled, "C05.TAB", b.qual, f"build handles {sorted(handled)}",
                   f"the builder can hold {sorted(emitted)} tokens but build() handles only {sorted(handled)}",
                   node=b.node, file=b.file)
         if exc:
             run.note(f"{b.qual}: CONSTANT tokens are not handled (three-phase formulas with constants "
                      "are outside the string/2-operand API exercised by the property) — frozen exception")
-        ok = any(isinstance(s, ast.For) and u(s.iter) == "self._steps" for s in body_walk(b.node))
+        ok = any(isinstance(s, ast.For) and u(s.iter) == "self._steps" for f_ in units for s in body_walk(f_.node))
         run.check(ok, "C05.TAB", b.qual, "tokens replayed in order", "tokens are not replayed in order",
                   node=b.node, file=b.file)
 
@@ -1824,12 +1826,103 @@ def check_ho_build(run: Run, prog: Program) -> None:
     token kind on the paths of the replay loop: a COMPONENT_METRIC token reaches push_metric (only), an OPER token
     push_oper(<its value>), a CONSTANT token push_constant(<its value / base value>); the three-phase builder does
     so for each of its three per-phase builders and hands them on in phase order."""
-    want = {"COMPONENT_METRIC": "push_metric", "OPER": "push_oper", "CONSTANT": "push_constant"}
     for cname, kinds, phases in (("HigherOrderFormulaBuilder", ("COMPONENT_METRIC", "OPER", "CONSTANT"), 1),
                                  ("HigherOrderFormulaBuilder3Phase", ("COMPONENT_METRIC", "OPER"), 3)):
         raw = prog.func(f"{ENGINE}:{cname}.build")
         run.analysed(raw.qual)
         fl = Flow(prog, spliced(prog, raw))
+        ok, detail = _replay_ok(fl, kinds, phases)
+        if not ok and phases == 3 and detail == NO_REPLAY_LOOP:
+            # the other architecture: one private helper builds the engine of ONE phase (its own builder, its own replay
+            # of the tokens, the operand's stream of that phase) and build() calls it for phase 0, 1, 2 in order
+            ok, detail = _per_phase_ok(prog, run, fl, kinds)
+        run.check(ok, "C05.TAB", raw.qual, "tokens replayed into the builder(s) by kind", detail, node=raw.node, file=raw.file)
+
+
+NO_REPLAY_LOOP = "no replay loop over the recorded tokens"
+
+
+def _per_phase_ok(prog: Program, run: Run, fl: Flow, kinds: tuple[str, ...]) -> tuple[bool, str]:
+    from ..engine.normalize import _bind
+
+    ctor = [(nid, c) for nid, c in fl.calls(lambda c: u(c.func).split("[")[0] == "FormulaEngine3Phase")]
+    if len(ctor) != 1:
+        return False, NO_REPLAY_LOOP
+    nid, c = ctor[0]
+    tup: ast.AST | None = None
+    tn = nid
+    for a in list(c.args) + [k.value for k in c.keywords]:
+        if isinstance(a, (ast.Tuple, ast.List)) and len(a.elts) == 3:
+            tup = a
+            break
+        o = fl.origin1(a, nid)
+        if o is not None and o.kind == "expr" and isinstance(o.node, (ast.Tuple, ast.List)) and len(o.node.elts) == 3 and o.nid is not None:
+            tup, tn = o.node, o.nid
+            break
+    if tup is None:
+        return False, NO_REPLAY_LOOP
+    calls: list[ast.Call] = []
+    for e in tup.elts:  # type: ignore[attr-defined]
+        o = fl.origin1(e, tn)
+        x = o.node if o is not None and o.kind == "expr" and isinstance(e, ast.Name) else e
+        if not isinstance(x, ast.Call):
+            return False, NO_REPLAY_LOOP
+        calls.append(x)
+    nested = {n.name: n for n in ast.walk(fl.fn.node) if isinstance(n, (ast.FunctionDef, ast.AsyncFunctionDef)) and n is not fl.fn.node}
+    helpers = [fl.callee(x) or (FuncInfo(x.func.id, fl.fn.module, nested[x.func.id], None, fl.fn)
+                                if isinstance(x.func, ast.Name) and x.func.id in nested else None) for x in calls]
+    if any(h is None for h in helpers) or len({id(h.node) for h in helpers if h is not None}) != 1:
+        return False, NO_REPLAY_LOOP
+    helper = helpers[0]
+    assert helper is not None
+    binds = [_bind(helper.node, x) for x in calls]
+    if any(b is None for b in binds):
+        return False, "the per-phase helper's arguments cannot be read"
+    phase_ps = [p for p in binds[0] if [b[p].value if isinstance(b[p], ast.Constant) else None for b in binds] == [0, 1, 2]]  # type: ignore[index,union-attr]
+    same = all(len({u(b[p]) for b in binds}) == 1 for p in binds[0] if p not in phase_ps)  # type: ignore[index,union-attr]
+    if len(phase_ps) != 1 or not same:
+        return False, "the three per-phase engines are not built for phase 0, 1, 2 in this order from otherwise equal arguments"
+    run.analysed(helper.qual)
+    hfl = Flow(prog, spliced(prog, helper))
+    ok, detail = _replay_ok(hfl, kinds, 1)
+    if not ok:
+        return False, f"{helper.name}(): {detail}"
+    # one fresh builder per call, returned built; the operand's stream is the one of the helper's phase
+    pushes = hfl.calls(lambda c: isinstance(c.func, ast.Attribute) and c.func.attr in ("push_metric", "push_oper", "push_constant"))
+    fresh = bool(pushes)
+    made: list[ast.AST] = []
+    for pn, pc in pushes:
+        o = hfl.origin1(pc.func.value, pn)  # type: ignore[union-attr]
+        if o is None or o.kind != "expr" or not (isinstance(o.node, ast.Call) and u(o.node.func).split("[")[0] == "FormulaBuilder"):
+            fresh = False
+        elif not any(o.node is m for m in made):
+            made.append(o.node)
+    fresh = fresh and len(made) == 1
+    for r in hfl.returns():
+        v = hfl.cfg.nodes[r].ast.value  # type: ignore[union-attr]
+        o = hfl.origin1(v, r) if v is not None else None
+        b = o.node if o is not None and o.kind == "expr" else None
+        fresh = fresh and isinstance(b, ast.Call) and isinstance(b.func, ast.Attribute) and b.func.attr == "build" \
+            and made and hfl.is_node(b.func.value, made[0], o.nid)  # type: ignore[union-attr]
+    if not fresh or not hfl.returns():
+        return False, f"{helper.name}() does not replay the tokens into one fresh FormulaBuilder and return what it builds"
+    pm = prog.func(f"{ENGINE}:FormulaBuilder.push_metric")
+    pps = [p for p in pm.params if p != "self"]
+    for pn, pc in pushes:
+        if pc.func.attr != "push_metric":  # type: ignore[union-attr]
+            continue
+        st = positional(pc, pps).get(pps[1]) if len(pps) > 1 else None
+        subs = [x for x in ast.walk(st) if isinstance(x, ast.Subscript)] if st is not None else []
+        by_phase = [x for x in subs if (lambda oo: bool(oo) and all(q.kind == "param" and q.name == phase_ps[0] for q in oo))(hfl.origin(x.slice, pn))]
+        if not by_phase:
+            return False, f"{helper.name}() does not take the operand's stream of its own phase (`<operand>._streams[{phase_ps[0]}]`)"
+    return True, ""
+
+
+def _replay_ok(fl: Flow, kinds: tuple[str, ...], phases: int) -> tuple[bool, str]:
+    """(holds, what is wrong) for one replay of the recorded tokens into builder(s) in the function of `fl`."""
+    want = {"COMPONENT_METRIC": "push_metric", "OPER": "push_oper", "CONSTANT": "push_constant"}
+    if True:
         cfg = fl.cfg
         loops = [h for h in cfg.nodes if h.kind == "for" and h.id in fl.live and isinstance(h.ast.target, ast.Tuple)  # type: ignore[union-attr]
                  and len(h.ast.target.elts) == 2 and all(o.kind == "expr" and u(o.node) == "self._steps" for o in fl.origin(h.ast.iter, h.id))]  # type: ignore[union-attr]
@@ -1950,7 +2043,7 @@ def check_ho_build(run: Run, prog: Program) -> None:
                 ok = idxs == [0, 1, 2] or (tup is None and any(
                     isinstance(a, (ast.ListComp, ast.GeneratorExp, ast.Call)) for a in list(c.args) + [k.value for k in c.keywords]))
             detail = "the three per-phase engines are not handed on in phase order"
-        run.check(ok, "C05.TAB", raw.qual, "tokens replayed into the builder(s) by kind", detail, node=raw.node, file=raw.file)
+        return ok, detail
 
 
 _DEQUE_MUTATORS = ("append", "appendleft", "extend", "extendleft", "insert", "pop", "popleft", "clear", "remove", "rotate", "reverse")
@@ -2272,6 +2365,246 @@ def check_pool(run: Run, prog: Program, rule: str = "C05.POOL", policy_mode: boo
         raise AnalysisError(f"no caller of {rfb.qual}(...).from_string(...) found: the entry point of the formula-string path moved")
 
 
+def emitted_leaves(flow: Any, nid: int, expr: ast.AST, fuel: int = 10) -> list[tuple[Any, int, ast.AST | None, str]]:
+    """Everything the expression can evaluate to: alternatives of conditional expressions and `a or b`, locals and the
+    returns of private helpers followed back to what was assigned (every definition that reaches); `float(x)` is x."""
+    out: list[tuple[Any, int, ast.AST | None, str]] = []
+    for alt in select_ifexp(expr, lambda e: None):
+        if isinstance(alt, ast.BoolOp):
+            for v in alt.values:
+                out.extend(emitted_leaves(flow, nid, v, fuel))
+            continue
+        if isinstance(alt, ast.NamedExpr):
+            out.extend(emitted_leaves(flow, nid, alt.value, fuel))
+            continue
+        if isinstance(alt, ast.Call) and u(alt.func) == "float" and len(alt.args) == 1 and not alt.keywords:
+            out.extend(emitted_leaves(flow, nid, alt.args[0], fuel))
+            continue
+        if fuel > 0 and (isinstance(alt, ast.Name) or (isinstance(alt, ast.Call) and flow.child(alt, nid) is not None)):
+            for o in flow.origin(alt, nid):
+                if o.kind == "expr" and o.node is not None and o.nid is not None and not (o.node is alt and o.flow is flow):
+                    out.extend(emitted_leaves(o.flow, o.nid, o.node, fuel - 1))
+                elif o.kind == "expr" and o.node is not None:
+                    out.append((o.flow, o.nid if o.nid is not None else nid, o.node, u(o.node)))
+                else:
+                    out.append((o.flow, o.nid if o.nid is not None else nid, None, o.text()))
+            continue
+        out.append((flow, nid, alt, u(alt)))
+    return out
+
+
+def check_emitted(run: Run, prog: Program) -> None:
+    """C05.EVAL (emitted value) -- "each emitted value equals that expression evaluated ... up to floating-point
+    rounding": C05.STEP / PREC / PAREN establish that the one value the steps leave on the stack IS the value of the
+    expression; what apply() then hands to `create_method` for the sample has to be that residual value itself on every
+    path -- every definition of it that reaches the constructor is the read of the stack (`stack.pop()`, `stack[-1]`,
+    `stack[0]`, through locals, helpers, `float()`).  Anything else in that place -- a constant a guard substitutes
+    (snapping to 0.0 within an *absolute* tolerance is an error of 100 % for every legitimate result below it, and each
+    engine of a composition does it again), `round()`, `abs()`, a clamp, a scaled or offset value -- makes the sample
+    differ from the expression's value by more than rounding."""
+    from ._c06_util import result_sites
+
+    raw = prog.func(f"{EVAL}:FormulaEvaluator.apply")
+    run.analysed(raw.qual)
+    fl = Flow(prog, raw)
+    sites = result_sites(fl, lambda c: u(c.func).split("[")[0] == "Sample")
+    inst = f"{raw.qual}: create_method gets the residual value of the stack itself"
+    created = 0
+    bad: list[tuple[str, ast.AST | None, Any]] = []
+
+    def is_stack_read(e: ast.AST | None) -> bool:
+        if isinstance(e, ast.Call) and isinstance(e.func, ast.Attribute) and e.func.attr == "pop" and not e.keywords \
+                and (not e.args or (len(e.args) == 1 and u(e.args[0]) in ("-1", "0"))):
+            return True
+        return isinstance(e, ast.Subscript) and isinstance(e.ctx, ast.Load) and u(e.slice) in ("-1", "0")
+
+    for s_ in sites:
+        v = s_.args(["timestamp", "value"]).get("value")
+        if v is None:
+            continue
+        for f2, n2, leaf, _txt in emitted_leaves(s_.flow, s_.nid, v):
+            if not (isinstance(leaf, ast.Call) and u(leaf.func) in ("self._create_method", "self._create") and len(leaf.args) + len(leaf.keywords) == 1):
+                continue  # the None sample (and whatever else is not a created value: C13.OUT's business)
+            created += 1
+            arg = leaf.args[0] if leaf.args else leaf.keywords[0].value
+            for f3, _n3, e3, txt in emitted_leaves(f2, n2, arg):
+                if not is_stack_read(e3):
+                    bad.append((txt, e3, f3))
+    if not created:
+        raise AnalysisError(f"{raw.qual}: no sample built with create_method(<result>) is returned (C05.EVAL)")
+    texts = sorted({t for t, _e, _f in bad})
+    node = next((e for _t, e, _f in bad if e is not None), raw.node)
+    run.check(not bad, "C05.EVAL", raw.qual, "the emitted value is the residual of the evaluation stack",
+              f"the value handed to create_method for the emitted sample can be {texts} instead of the one value the steps left on "
+              "the evaluation stack: on that path the sample is not the value of the expression.  Replacing the result under a "
+              "guard (`if isclose(res, 0.0, abs_tol=eps): res = 0.0` turns every legitimate result below eps -- ratios, shares, "
+              "small currents -- into exactly 0.0, a relative error of 100 %, and every operand engine of a composition does it again "
+              "before the outer engine multiplies it up), rounding, `abs()`, clamping or rescaling it are the same mistake: only "
+              "floating-point rounding of the arithmetic itself is allowed between the expression and the sample",
+              node=node, file=(bad[0][2].fn.file if bad else raw.file), instance=inst)
+
+
+def _name_attr_param(prog: Program, cls: ClassInfo) -> tuple[FuncInfo, str] | None:
+    """(constructor, parameter) whose value becomes the name of what `cls` builds: the parameter of the constructor
+    `cls` resolves to that is stored in the attribute the `name` property returns (else an attribute called *name*);
+    followed through `super().__init__(...)` of subclasses' own constructors."""
+    init = prog.resolve_method(cls, "__init__")
+    if init is None or init.cls is None:
+        return None
+    own = init.cls
+    attrs: set[str] = set()
+    prop = prog.resolve_method(own, "name")
+    if prop is not None:
+        attrs = {r.value.attr for r in ast.walk(prop.node) if isinstance(r, ast.Return) and isinstance(r.value, ast.Attribute) and u(r.value.value) == "self"}
+    fl = Flow(prog, init)
+    for n in fl.cfg.nodes:
+        if n.id not in fl.live or not isinstance(n.ast, (ast.Assign, ast.AnnAssign)) or n.ast.value is None:
+            continue
+        tgts = n.ast.targets if isinstance(n.ast, ast.Assign) else [n.ast.target]
+        for t in tgts:
+            if isinstance(t, ast.Attribute) and u(t.value) == "self" and (t.attr in attrs or (not attrs and t.attr.strip("_") == "name")):
+                o = fl.origin(n.ast.value, n.id)
+                if o and all(q.kind == "param" for q in o) and len({q.name for q in o}) == 1:
+                    return init, o[0].name
+    # the constructor only hands the name up: super().__init__(<name>, ...)
+    from ..engine.normalize import _bind
+    from ..engine.util import is_super_call
+
+    for nid, c in fl.calls(lambda c: is_super_call(c, "__init__")):
+        for parent in prog.mro(own)[1:]:
+            up = _name_attr_param(prog, parent)
+            if up is None:
+                continue
+            binds = _bind(up[0].node, c)
+            a = binds.get(up[1]) if binds is not None else None
+            if a is None:
+                return None
+            o = fl.origin(a, nid)
+            if o and all(q.kind == "param" for q in o) and len({q.name for q in o}) == 1:
+                return init, o[0].name
+            return None
+    return None
+
+
+def _intact_params(fl: Flow, e: ast.AST, nid: int, fuel: int = 6, root: Flow | None = None) -> set[str]:
+    """Parameters of the function whose *whole* text is part of the string `e` builds: the parameter itself, a formatted
+    value of an f-string, an operand of `+` / `%`, an argument of `str()` / `.format()` / `.join()` -- through locals.
+    A slice, a hash, a length, an attribute of the parameter do not carry it whole."""
+    out: set[str] = set()
+    root = root or fl
+    if isinstance(e, ast.Name) and isinstance(e.ctx, ast.Load):
+        for o in fl.origin(e, nid, through_helpers=False):
+            if o.kind == "param" and o.flow is root:
+                out.add(o.name)
+            elif o.kind == "expr" and o.node is not None and o.nid is not None and o.node is not e and fuel > 0:
+                out |= _intact_params(o.flow, o.node, o.nid, fuel - 1, root)
+        return out
+    if isinstance(e, ast.JoinedStr):
+        for v in e.values:
+            if isinstance(v, ast.FormattedValue) and v.format_spec is None:
+                out |= _intact_params(fl, v.value, nid, fuel, root)
+        return out
+    if isinstance(e, ast.BinOp) and isinstance(e.op, (ast.Add, ast.Mod)):
+        return _intact_params(fl, e.left, nid, fuel, root) | _intact_params(fl, e.right, nid, fuel, root)
+    if isinstance(e, (ast.Tuple, ast.List)):
+        for x in e.elts:
+            out |= _intact_params(fl, x, nid, fuel, root)
+        return out
+    if isinstance(e, ast.Call) and (u(e.func) in ("str", "repr") or (isinstance(e.func, ast.Attribute) and e.func.attr in ("format", "join", "strip"))):
+        for a in list(e.args) + [k.value for k in e.keywords] + ([e.func.value] if isinstance(e.func, ast.Attribute) and e.func.attr == "strip" else []):
+            out |= _intact_params(fl, a, nid, fuel, root)
+        return out
+    if isinstance(e, ast.IfExp):
+        return _intact_params(fl, e.body, nid, fuel, root) & _intact_params(fl, e.orelse, nid, fuel, root)
+    return out
+
+
+def check_names(run: Run, prog: Program) -> None:
+    """C05.POOL (engine names) -- "every expression tree built through the Python operator/method API of formula engines":
+    HigherOrderFormulaBuilder.build() registers each operand engine under that engine's *name*
+    (`push_metric(<operand>._name, <operand>.new_receiver(), ...)`) and FormulaBuilder.push_metric keeps one MetricFetcher
+    per name (C05.EVAL), so inside a composition an engine's name IS its identity: two operands with one name are read
+    as the same operand and `f1 - f2` evaluates `f1 - f1`.  Whoever makes engines from formula strings and computes
+    their names himself therefore has to put the formula text, whole, into the name handed to the builder (clause:
+    every parameter that reaches from_string's formula argument is an intact part of the name); a name supplied by the
+    caller is the caller's contract."""
+    from ..engine.normalize import _bind
+
+    # premise, read from the code: operands of a composition are keyed by an attribute of the operand engine
+    hb = prog.func(f"{ENGINE}:HigherOrderFormulaBuilder.build")
+    pm = prog.func(f"{ENGINE}:FormulaBuilder.push_metric")
+    pparams = [p for p in pm.params if p != "self"]
+    from .c13 import push_sites
+
+    _root, psites = push_sites(prog, hb)
+    keyed_by_name = False
+    key_txt = ""
+    for pfl, nid, c in psites:
+        a = positional(c, pparams).get(pparams[0]) if pparams else None
+        for o in (pfl.origin(a, nid) if a is not None else []):
+            if o.kind == "expr" and isinstance(o.node, ast.Attribute) and "name" in o.node.attr.lower():
+                keyed_by_name = True
+                key_txt = u(o.node)
+    rfb = prog.cls(f"{RFB}:ResampledFormulaBuilder")
+    fs = prog.resolve_method(rfb, "from_string")
+    if fs is None:
+        raise AnalysisError(f"{rfb.qual}.from_string not found")
+    if not keyed_by_name:
+        run.ok("C05.POOL", "compositions do not key their operand engines by name: engine names are free")
+        return
+    bound = _name_attr_param(prog, rfb)
+    if bound is None:
+        raise AnalysisError(f"{rfb.qual}: cannot tell which constructor parameter becomes the engine's name (C05.POOL names)")
+    init, pname = bound
+    fparams = [p for p in fs.params if p != "self"]
+    policy = {p for p in fparams if "none" in p.lower() or "zero" in p.lower()}
+    callers = 0
+    for fn in list(prog.all_functions()):
+        if fn.module is rfb.module or not find_ctor(prog, fn, rfb):
+            continue
+        fl = Flow(prog, fn)
+        for fnid, fcall in fl.calls(lambda c: isinstance(c.func, ast.Attribute) and c.func.attr == "from_string"):
+            bo = fl.origin(fcall.func.value, fnid)  # type: ignore[union-attr]
+            ctors = [q for q in bo if q.call() is not None and isinstance(q.call().func, (ast.Name, ast.Subscript))  # type: ignore[union-attr]
+                     and prog.resolve_name(fn.module, u(q.call().func).split("[")[0]) is rfb]  # type: ignore[union-attr]
+            if not ctors or len(ctors) != len(bo):
+                continue
+            callers += 1
+            run.analysed(fn.qual)
+            fa = positional(fcall, fparams)
+            text_params: set[str] = set()
+            for k_, a in fa.items():
+                if k_ not in policy:
+                    text_params |= param_deps(fl, a, fnid)
+            text_params.discard("self")
+            for q in ctors:
+                ctor = q.call()
+                assert ctor is not None
+                binds = _bind(init.node, ctor)
+                narg = binds.get(pname) if binds is not None else None
+                inst = f"{fn.qual}: the engine's name carries the formula text"
+                if narg is None:
+                    raise AnalysisError(f"{fn.qual}: cannot read the `{pname}` argument of `{u(ctor)[:60]}`")
+                no = q.flow.origin(narg, q.nid)
+                if no and all(x.kind == "param" and x.name not in text_params for x in no):
+                    run.ok("C05.POOL", f"{fn.qual}: the engine's name is supplied by the caller")
+                    continue
+                have = _intact_params(q.flow, narg, q.nid, root=fl)  # type: ignore[arg-type]
+                missing = sorted(text_params - have)
+                run.check(not missing, "C05.POOL", fn.qual, f"name of the engine built from a formula string: `{u(narg)[:60]}`",
+                          f"the engine built from the formula string is named `{u(narg)[:80]}` -- made from {sorted(have) or 'no parameter'} -- "
+                          f"while the expression it evaluates is selected by {sorted(text_params)}: nothing makes the names of the engines built for two "
+                          f"different values of {' / '.join(missing)} differ.  A composition keys its operands by exactly that name "
+                          f"(HigherOrderFormulaBuilder.build: push_metric({key_txt}, ...), one MetricFetcher per name), so when two such "
+                          "engines are combined with + - * / min max the second operand is read from the FIRST one's stream: f1 - f2 "
+                          "emits 0, f1 / f2 emits 1, max(f2, f1) emits f2 -- well-formed samples of the wrong expression.  The name "
+                          "is not cosmetic: it has to contain the formula text whole (a constant, the metric id alone, a truncated "
+                          "text, a per-pool label are the same mistake; a digest of the text is not followed and reported as well)",
+                          node=narg, file=fn.file, instance=inst)
+    if not callers:
+        raise AnalysisError(f"no caller of {rfb.qual}(...).from_string(...) found: the entry point of the formula-string path moved")
+
+
 def find_ctor(prog: Program, fn: FuncInfo, cls: ClassInfo) -> bool:
     if cls.name not in fn.module.source:
         return False
@@ -2387,6 +2720,37 @@ def build_controls(prog: Program) -> list[tuple[str, str, str, str, str]]:
             add("string-formula cache keyed by the text alone", fn_.module.name, stmt_patch(
                 fn_, k, lambda t, k=k, ftxt=ftxt: f"{indent_of(t)}{k.targets[0].id} = {ftxt}\n"), "C05.POOL")
             break
+    # POOL (names): every string-formula engine gets the same name
+    for fn_ in prog.all_functions():
+        if fn_.module is rfb_cls.module or not find_ctor(prog, fn_, rfb_cls):
+            continue
+        if not any(isinstance(c, ast.Call) and isinstance(c.func, ast.Attribute) and c.func.attr == "from_string" for c in ast.walk(fn_.node)):
+            continue
+        bound = _name_attr_param(prog, rfb_cls)
+        if bound is None:
+            break
+        from ..engine.normalize import _bind as _bind_args
+        done_n = False
+        for c in (c for c in ast.walk(fn_.node) if isinstance(c, ast.Call) and isinstance(c.func, (ast.Name, ast.Subscript))
+                  and prog.resolve_name(fn_.module, u(c.func).split("[")[0]) is rfb_cls):
+            b_ = _bind_args(bound[0].node, c)
+            narg = b_.get(bound[1]) if b_ is not None else None
+            if narg is None or not hasattr(narg, "lineno"):
+                continue
+            txt = seg(fn_.module, narg)
+            kw = next((k for k in c.keywords if k.value is narg), None)
+
+            def rename(t: str, txt: str = txt, kw: Any = kw) -> str:
+                if kw is not None:
+                    return t.replace(f"{kw.arg}={txt}", f'{kw.arg}="string-formula"', 1)
+                return t.replace(txt, '"string-formula"', 1)
+
+            add("every string formula gets the same engine name", fn_.module.name,
+                src_patch(fn_.module, narg.lineno, narg.end_lineno or narg.lineno, rename), "C05.POOL")
+            done_n = True
+            break
+        if done_n:
+            break
     # EVAL: steps applied in reverse
     ev = prog.cls(f"{EVAL}:FormulaEvaluator")
     done = False
@@ -2397,6 +2761,19 @@ def build_controls(prog: Program) -> list[tuple[str, str, str, str, str]]:
                                                           lambda t: t.replace("self._steps", "reversed(self._steps)", 1)), "C05.EVAL")
                 done = True
                 break
+        if done:
+            break
+    # EVAL: the result is "tidied" before it is wrapped (rounded to micro-units)
+    done = False
+    for m in ev.methods.values():
+        for c in walk(m, ast.Call):
+            if u(c.func) in ("self._create_method", "self._create") and len(c.args) == 1 and not c.keywords:
+                atxt, ctxt = seg(m.module, c.args[0]), seg(m.module, c)
+                if atxt and ctxt:
+                    add("result rounded before it is emitted", EVAL, stmt_patch(
+                        m, c, lambda t, atxt=atxt, ctxt=ctxt: t.replace(ctxt, ctxt.replace(f"({atxt})", f"(round({atxt}, 6))", 1), 1)), "C05.EVAL")
+                    done = True
+                    break
         if done:
             break
     # TOK: end position taken from a different string
@@ -2453,7 +2830,7 @@ def build_controls(prog: Program) -> list[tuple[str, str, str, str, str]]:
     # ALIGN: drain loops of the first-run synchronisation interchanged
     add("drain loops interchanged", EVAL, interchange_patch(prog), "C05.ALIGN")
     if len(out) < 6:
-        raise AnalysisError(f"C05: only {len(out)} of 17 seeded controls could be derived from the source ({[o[0] for o in out]})")
+        raise AnalysisError(f"C05: only {len(out)} of 20 seeded controls could be derived from the source ({[o[0] for o in out]})")
     return out
 
 
@@ -2463,11 +2840,13 @@ def run_rules(run: Run, prog: Program) -> None:
     check_step(run, prog)
     check_paren(run, prog)
     check_eval(run, prog)
+    check_emitted(run, prog)
     check_tok(run, prog)
     check_digits(run, prog)
     check_ho_build(run, prog)
     check_fresh(run, prog)
     check_pool(run, prog)
+    check_names(run, prog)
     check_shared(run, prog)
     from .c06 import check_sync as first_run_sync
 
